@@ -493,6 +493,21 @@ def stopped_daemon_session(ctx, h, variant):
             t0 = time.monotonic()
             if variant == "clear":
                 outcome, detail = h.act(ebp, ["clear"])
+            elif variant == "shutdown":
+                # a polite shutdown of a daemon that does not answer the probe: pkgcore neither tells it to exit nor
+                # kills it and then waits for its exit.  Continue the daemon a little after the alarm; the wait must end
+                # (here: by the monitor's waitpid guard, counted as an observation outside the statement).
+                ebp2 = None
+                cont = threading.Timer(11.0, lambda: os.killpg(pid, signal.SIGCONT))
+                cont.daemon = True
+                cont.start()
+                try:
+                    h.processor.drop_ebuild_processor(ebp)
+                    ebp.shutdown_processor()
+                    outcome = "ok"
+                except BaseException as e:
+                    outcome = "raised:" + type(e).__name__
+                cont.cancel()
             else:
                 try:
                     ebp2 = h.acquire()
@@ -556,6 +571,8 @@ def run(ctx):
             stopped_daemon_session(ctx, h, ("request", "clear")[ctx.shard % 2])
             if not ctx.quick:
                 stopped_daemon_session(ctx, h, ("clear", "request")[ctx.shard % 2])
+                if ctx.shard % 4 == 0:
+                    stopped_daemon_session(ctx, h, "shutdown")
         for i, script in enumerate(directed):
             if i % ctx.nshards == ctx.shard % len(directed) or not ctx.quick:
                 session(ctx, h, actions=[list(a) for a in script])
@@ -566,6 +583,8 @@ def run(ctx):
             session(ctx, h)
     finally:
         h.ebd.shutdown_all()
+    for k, v in sorted(h.ebd.OBSERVED.items()):
+        ctx.count("stall_monitor_not_reported:" + k, v)
     ctx.count("distinct_trace_shapes", len(h.shapes))
     ctx.note("distinct trace shapes observed in this shard: %d" % len(h.shapes))
 
